@@ -79,11 +79,11 @@ def main(tier, seed):
             rep.samples.append(dict(signature=rec['src'].splitlines()[0], paths=rec.get('paths'), wrapper_text_tail=rec['code'][-500:], obligations=[f"{o['name']}:{o['status']}" for o in rec['obligations'][:12]]))
     # (F) iter_func_args on real code objects: bounded stand-in, labelled bounded
     from props import c04_iter
-    c04_iter.safe(rep)
+    _f = list(rep.functions); c04_iter.safe(rep); rep.functions = _f
     b = iter_func_args_bounded(rep, tier)
     files = ['beartype/_decor/_nontype/_wrap/_wrapargs.py', 'beartype/_decor/_nontype/_wrap/_wrapreturn.py', 'beartype/_decor/_nontype/_wrap/wrapmain.py',
              'beartype/_data/check/code/func/datacodefuncwrap.py', 'beartype/_util/func/arg/utilfuncargiter.py', 'beartype/_util/func/arg/utilfuncarglen.py']
-    rep.functions = [f'{p}@{report.src_hash(p)}' for p in files]
+    rep.functions = ['wrapper text generated per signature (mode G)', 'beartype/_util/func/arg/utilfuncargiter.py:iter_func_args (mode F: 5 loop invariants, ghost yield sequence, bound-method omission; leading asserts dropped)'] + [f'{p}@{report.src_hash(p)}' for p in files]
     from pyvc import model as M
     rep.trusted = ['pyvc', 'z3 5.1 / cvc5', 'the argument-binding rule of the language reference (6.3.4) as written in pyvc/wrapcheck.py'] + M.ASSUMED_SEMANTICS
     rep.assumptions = ['no passed value IS the private sentinel function __beartype_get_violation (the wrapper uses it as "not passed" marker)',
